@@ -244,15 +244,27 @@ func w9CComp(codec string, chunks [][]byte) string {
 	if codec == "null" {
 		return "CNull"
 	}
+	// the stored bytes of every block the byte stream holds (however many Write calls
+	// carried them); a stream that does not parse contributes the blocks before the damage
+	var stored [][]byte
+	if c, err := parseContainer(bytes.Join(chunks, nil)); err == nil {
+		for _, b := range c.Blocks {
+			stored = append(stored, b.Raw)
+		}
+	} else {
+		for i := 3; i < len(chunks); i += 4 {
+			stored = append(stored, chunks[i])
+		}
+	}
 	var items []string
 	seen := map[string]bool{}
-	for i := 3; i < len(chunks); i += 4 {
-		payload, err := decompressBlock(codec, chunks[i])
+	for _, raw := range stored {
+		payload, err := decompressBlock(codec, raw)
 		if err != nil || seen[string(payload)] {
 			continue
 		}
 		seen[string(payload)] = true
-		items = append(items, cPair(w9CUB(payload), w9CUB(chunks[i])))
+		items = append(items, cPair(w9CUB(payload), w9CUB(raw)))
 	}
 	return cApp("CTable", cList(items))
 }
@@ -297,20 +309,25 @@ func w9RunFaultFree(h *w9Whist, fail func(key, what string)) *w9Wrun {
 		return res
 	}
 	var recsSoFar [][]byte
+	closedSoFar := 0
 	for i, o := range h.Ops {
-		before := len(res.W.chunks)
+		before := len(res.W.acc)
 		err, pn := w9CallOp(enc, o)
 		if pn != nil || err != nil {
 			fail("call-failed", fmt.Sprintf("call %d (%s) on a working writer: err=%v panic=%v", i, w9OpName(o), err, pn))
 			res.Broken = true
 			return res
 		}
-		wrote := len(res.W.chunks) - before
+		wrote := len(res.W.acc) - before
 		res.OpChunks = append(res.OpChunks, len(res.W.chunks))
 		if !o.Flush {
 			recsSoFar = append(recsSoFar, w9SpecRecord(h.Kind, o))
 		}
-		// a block is written by exactly the calls that close a group: at once, not earlier, not later
+		if res.Closes[i] {
+			closedSoFar++
+		}
+		// a block is written by exactly the calls that close a group: at once, not earlier, not later.
+		// Judged on the bytes the writer holds after the call, however many Write calls carried them.
 		switch {
 		case res.Closes[i] && wrote == 0:
 			if o.Flush {
@@ -320,12 +337,16 @@ func w9RunFaultFree(h *w9Whist, fail func(key, what string)) *w9Wrun {
 			}
 		case !res.Closes[i] && wrote != 0:
 			if o.Flush {
-				fail("empty-block", fmt.Sprintf("call %d: Flush with nothing pending issued %d Write calls", i, wrote))
+				fail("empty-block", fmt.Sprintf("call %d: Flush with nothing pending wrote %d bytes", i, wrote))
 			} else {
-				fail("early-or-late-block", fmt.Sprintf("call %d: Encode below the block size %d issued %d Write calls", i, h.Size, wrote))
+				fail("early-or-late-block", fmt.Sprintf("call %d: Encode below the block size %d wrote %d bytes", i, h.Size, wrote))
 			}
-		case res.Closes[i] && wrote != 4:
-			fail("early-or-late-block", fmt.Sprintf("call %d: issued %d Write calls, a block is 4", i, wrote))
+		case res.Closes[i]:
+			if c, err := parseContainer(res.W.acc); err != nil {
+				fail("early-or-late-block", fmt.Sprintf("call %d closes a block, but what is written after it is not a whole number of blocks: %v", i, err))
+			} else if len(c.Blocks) != closedSoFar {
+				fail("early-or-late-block", fmt.Sprintf("call %d: %d blocks written so far, the history has closed %d", i, len(c.Blocks), closedSoFar))
+			}
 		}
 		// after Flush returns nothing remains buffered: what is written is a complete
 		// container holding every record encoded so far
@@ -341,7 +362,7 @@ func w9RunFaultFree(h *w9Whist, fail func(key, what string)) *w9Wrun {
 					all = append(all, b.Payload...)
 				}
 				if total != int64(len(recsSoFar)) || !bytes.Equal(all, bytes.Join(recsSoFar, nil)) {
-					fail("buffered-after-flush", fmt.Sprintf("after Flush (call %d) the container holds %d records / %d bytes, %d records / %d bytes were encoded",
+					fail("buffered-after-flush", fmt.Sprintf("after Flush (call %d) the container holds %d records / %d bytes, %d records / %d bytes were encoded (equal numbers: the bytes differ)",
 						i, total, len(all), len(recsSoFar), len(bytes.Join(recsSoFar, nil))))
 				}
 			}
@@ -361,7 +382,7 @@ func w9RunFaultFree(h *w9Whist, fail func(key, what string)) *w9Wrun {
 	}
 	w9CompareBlocks(c, res.Closed, fail)
 	// chunk level: count varint, length varint, stored payload, sync
-	if (len(res.W.chunks)-1)%4 == 0 && len(res.W.chunks) >= 1 {
+	if res.HdrWrites == 1 && len(res.W.chunks)-1 == 4*len(c.Blocks) {
 		for bi := 0; bi < (len(res.W.chunks)-1)/4; bi++ {
 			ch := res.W.chunks[1+4*bi : 5+4*bi]
 			cnt, rest, err := readVarint(ch[0])
@@ -659,6 +680,7 @@ func runC09(r *Run) {
 		h.Ops = append(h.Ops, w9GenRecord(r, h.Kind, 6000), w9Wop{Flush: true})
 		hs = append(hs, h)
 	}
+	c09Huge(r)
 	seen := map[string]bool{}
 	for _, h := range hs {
 		k := h.key()
@@ -667,6 +689,48 @@ func runC09(r *Run) {
 		}
 		seen[k] = true
 		c09One(r, h, k)
+	}
+}
+
+// c09Huge: blocks of tens of MiB — sizes at which a writer may start to split, spill or switch
+// buffers — judged by the same oracle as every other history (grouping, counts, lengths, sync
+// markers, nothing lost at Flush).  No model case: the history is too large to print as a
+// term, and the writer's theorems do not depend on sizes.
+func c09Huge(r *Run) {
+	type hh struct {
+		size  int
+		codec string
+		recs  []int
+	}
+	mib := 1 << 20
+	plans := []hh{
+		{20 * mib, "null", []int{5 * mib / 2, 5 * mib / 2, 5 * mib / 2, 5 * mib / 2, 5 * mib / 2, 5 * mib / 2, 5 * mib / 2, 5 * mib / 2, 5 * mib / 2, 700}},
+		{64 * mib, "null", []int{120, 90, 300, 17*mib + 11, 50}},
+		{6 * mib, codecNames[1+int(r.Seed)%2], []int{1300000, 1300000, 1300000, 1300000, 1300000, 1300000, 40}},
+	}
+	if r.Thorough() {
+		plans = append(plans,
+			hh{70 * mib, "null", []int{9 * mib, 9 * mib, 9 * mib, 9 * mib, 9 * mib, 9 * mib, 9 * mib, 9 * mib, 9 * mib, 33}},
+			hh{40 * mib, codecNames[1+int(r.Seed+1)%2], []int{35 * mib, 6 * mib, 100}},
+			hh{3 * mib, "null", []int{33*mib + 5, 10, 10}})
+	}
+	for _, p := range plans {
+		h := &w9Whist{Kind: 1 + r.Rng.Intn(2), Codec: p.codec, Size: p.size}
+		for _, n := range p.recs {
+			h.Ops = append(h.Ops, w9GenRecord(r, h.Kind, n))
+		}
+		h.Ops = append(h.Ops, w9Wop{Flush: true})
+		desc := map[string]any{"type": []string{"EncW0", "EncW1", "EncW2"}[h.Kind], "codec": h.Codec, "block_size": h.Size, "encoded_record_sizes_then_flush": p.recs,
+			"how": "record contents from the run's generator (seed and tier reproduce them)"}
+		var fails [][2]string
+		run := w9RunFaultFree(h, func(k, what string) { fails = append(fails, [2]string{k, what}) })
+		r.Count(fmt.Sprintf("huge/%s/%dMiB", h.Codec, p.size/mib))
+		if !run.Broken {
+			c09FinalFlush(h, func(k, what string) { fails = append(fails, [2]string{k, what}) })
+		}
+		for _, f := range fails {
+			r.Fail(-1, f[0], f[1], map[string]any{"history": desc})
+		}
 	}
 }
 
